@@ -435,6 +435,11 @@ func runC06(c *Ctx) {
 		"123456789012345678901234567890", "0.00000000000000000001", "1.00000000000000000001", "92233720368547758.07", "92233720368547758.08",
 		"16%", "16.0%", "-16.0%", "0.160", "16.%", "%", "-%", "16%%", "1 6%", "16 %", "+16%", "16.0e1%", "٣%", "0%", "0.0%", "100%", "92233720368547758.07%", "92233720368547758.08%", "9223372036854775807%", "922337203685477580%",
 	}
+	// zero-padded, fixed-width texts: leading zeros carry no value, so these fit
+	for _, pad := range []int{1, 17, 18, 19, 20, 21, 30, 60} {
+		z := strings.Repeat("0", pad)
+		fixed = append(fixed, z+"12.50", "-"+z+"12.50", z+"9223372036854775807", z+"9223372036854775808", "-"+z+"9223372036854775808", z+"0", z+".5", z+"16.0%", "-"+z+"16%", "1."+z+"1", "0."+z+"1", "0."+z, z+"1."+z)
+	}
 	rng := c.Rand(7)
 	for i := 0; i < c.N(20000, 400000); i++ {
 		il := 1 + rng.IntN(22)
